@@ -143,7 +143,7 @@ type Builder struct {
 	Fn    *ssa.Function
 	Bind  map[*ssa.Parameter]*Term // caller-side terms of the parameters (optional)
 	memo  map[memoKey]*Term
-	busy  map[ssa.Value]bool
+	busy  map[memoKey]bool
 	reach map[*ssa.BasicBlock]map[*ssa.BasicBlock]bool
 	// MutSummary: repository callee -> parameter indices (receiver = 0) it may write through
 	mut map[*ssa.Function]map[int]bool
@@ -156,7 +156,7 @@ type memoKey struct {
 
 // NewBuilder makes a builder for fn.
 func NewBuilder(p *Prog, fn *ssa.Function) *Builder {
-	return &Builder{P: p, Fn: fn, Bind: map[*ssa.Parameter]*Term{}, memo: map[memoKey]*Term{}, busy: map[ssa.Value]bool{}, mut: map[*ssa.Function]map[int]bool{}}
+	return &Builder{P: p, Fn: fn, Bind: map[*ssa.Parameter]*Term{}, memo: map[memoKey]*Term{}, busy: map[memoKey]bool{}, mut: map[*ssa.Function]map[int]bool{}}
 }
 
 // CalleeName gives a stable, type-resolved name of the callee of a call.
@@ -530,11 +530,12 @@ func (b *Builder) of1(v ssa.Value, at ssa.Instruction, depth int) *Term {
 	case *ssa.FreeVar:
 		return &Term{Op: "free", Name: x.Name(), V: v}
 	}
-	if b.busy[v] {
+	bk := memoKey{v, at}
+	if b.busy[bk] {
 		return b.mk("cycle", "", v)
 	}
-	b.busy[v] = true
-	defer delete(b.busy, v)
+	b.busy[bk] = true
+	defer delete(b.busy, bk)
 
 	switch x := v.(type) {
 	case *ssa.ChangeType:
